@@ -51,4 +51,9 @@ def loopW? {ι σ : Type} (k : Nat) : List ι → σ → (ι → σ → W (σ ×
   | [], s, _ => W.ret s
   | x :: xs, s, f => W.bind (W.tick k) fun _ => W.bind (f x s) fun r => if r.2 then W.ret r.1 else loopW? k xs r.1 f
 
+/-- `List.foldlM (m := Option)` (a `for` loop without `break`, as pyobj.py / pydict.py render it) that ticks counter `k` once per iteration started -/
+def foldW? {ι σ : Type} (k : Nat) (f : σ → ι → W σ) : σ → List ι → W σ
+  | s, [] => W.ret s
+  | s, x :: xs => W.bind (W.tick k) fun _ => W.bind (f s x) fun s' => foldW? k f s' xs
+
 end TonVerif.Py
